@@ -186,6 +186,10 @@ func (e *Engine) paramNames(key string, fs *FuncSpec) []string {
 				}
 				ns = append(ns, p.Name())
 			}
+			// a closure's captured variables follow its parameters
+			for _, fv := range f.FreeVars {
+				ns = append(ns, fv.Name())
+			}
 			return ns
 		}
 		if sig := e.externalSig(key); sig != nil {
@@ -699,7 +703,11 @@ func (fc *fnCtx) havocLoc(st *State, sc *specCtx, loc Expr) {
 		case "region":
 			// region(name): whole-region havoc, e.g. region(cell.U)
 			if id, ok := l.Args[0].(*Ident); ok {
-				fc.havocRegion(st, id.Name)
+				name := id.Name
+				if _, isModel := fc.e.contracts.Models[name]; isModel {
+					name = "M." + name // region(model): the model of every object
+				}
+				fc.havocRegion(st, name)
 				return
 			}
 		}
